@@ -6,7 +6,8 @@
                std::runtime_error leave, the cursor stays within [start, N+1].
    MODE 4 (J4): parse_next with its callees as recorder stubs: dispatch on the first non-blank byte, the nesting depth is
                passed on unchanged, and a depth above the limit raises runtime_error before anything is consumed.
-   MODE 5 (J4): parse_array with parse_next as a contract stub: each element is parsed at depth+1, the loop makes progress. */
+   MODE 5 (J4): parse_array with parse_next as a contract stub: each element is parsed at depth+1, the loop makes progress.
+   MODE 6 (J4): parse_object likewise: key and value of every member at depth+1. */
 #include "layout.h"
 #include "bv_model.h"
 #ifndef N
@@ -111,6 +112,29 @@ int main(void) {
   PARSE_ARRAY(jv, (char*)&text, (char*)&off, depth0);
   __CPROVER_assert(bad_depth == 0, "C18: every element of an array is parsed one nesting level deeper");
   __CPROVER_assert(next_calls <= N, "C18: the element loop makes progress (bounded by the text length)");
+  if (__exc_pending) { __CPROVER_assert(__VERIF_exc_type() == (char*)&g__ZTISt13runtime_error || __VERIF_exc_type() == (char*)&g__ZTISt12out_of_range, "C18: malformed input is reported as std::runtime_error or std::out_of_range"); __CPROVER_assert(0, "witness: input rejected"); }
+  else { __CPROVER_assert(off <= N + 1, "C18: the cursor moves forward and stays within the text (at most one past the end)"); __CPROVER_assert(0, "witness: input accepted"); }
+  return 0;
+}
+#elif MODE == 6
+/* J4: parse_object with parse_next as a contract stub: the key and the value of every member are parsed at depth+1, the member loop makes progress */
+static uint64_t next_calls, bad_depth, depth0;
+void PARSE_NEXT(char* sret, char* str, char* off, uint64_t depth) {
+  next_calls++; if (depth != depth0 + 1) bad_depth++;
+  uint64_t o = *(uint64_t*)off; uint64_t k = nondet_u64(); __CPROVER_assume(k >= 1 && k <= N + 1 - o && o <= N); *(uint64_t*)off = o + k;       /* contract: consumes at least one byte */
+  if (nondet_u8() & 1) { char* __VERIF_throw_new(char*, uint64_t); __VERIF_throw_new((char*)&g__ZTISt13runtime_error, 16); }
+}
+void JSON_TO_STRING(char* sret, char* self) { struct sso_string* s = (struct sso_string*)sret; s->p = s->buf; s->n = 1; s->buf[0] = 'k'; s->buf[1] = 0; }
+char* JSON_INDEX_STR(char* self, char* key) { return json_slot; }
+char* JSON_ASSIGN_COPY(char* self, char* o) { return self; }
+void PARSE_OBJECT(char* sret, char* str, char* off, uint64_t depth);
+int main(void) {
+  char in[N ? N : 1]; for (unsigned i = 0; i < N; i++) in[i] = (char)nondet_u8();
+  static struct sso_string text; set_text(&text, in, N);
+  uint64_t off = nondet_u64(); __CPROVER_assume(off < N && in[off] == '{'); depth0 = nondet_u64(); static char jv[64];
+  PARSE_OBJECT(jv, (char*)&text, (char*)&off, depth0);
+  __CPROVER_assert(bad_depth == 0, "C18: key and value of every object member are parsed one nesting level deeper");
+  __CPROVER_assert(next_calls <= N + 1, "C18: the member loop makes progress (bounded by the text length)");
   if (__exc_pending) { __CPROVER_assert(__VERIF_exc_type() == (char*)&g__ZTISt13runtime_error || __VERIF_exc_type() == (char*)&g__ZTISt12out_of_range, "C18: malformed input is reported as std::runtime_error or std::out_of_range"); __CPROVER_assert(0, "witness: input rejected"); }
   else { __CPROVER_assert(off <= N + 1, "C18: the cursor moves forward and stays within the text (at most one past the end)"); __CPROVER_assert(0, "witness: input accepted"); }
   return 0;
